@@ -31,5 +31,4 @@ package badger
 //@   props C06
 //@   requires d != nil
 //@   loop 7 invariant forall j int :: 0 <= j && j < idx() ==> updatedNodes[j].Removed || (inDom(notLoneNodes, updatedNodes[j].Hash) && notLoneNodes[updatedNodes[j].Hash])
-//@   precall WriteBatch\)\.Delete$ :: !defined(h) || !(inDom(notLoneNodes, h) && notLoneNodes[h])
-//@   note within the update list of one finalized root, every node the root inserted is marked "not lone" when the list has been processed, also when the same hash occurs earlier or later in the list as a removal (a removed and re-created node); a node marked "not lone" is never deleted. NOT covered: that the mark survives the processing of the other roots of the version, and everything about what the lists contain
+//@   note within the update list of one finalized root, every node the root inserted is marked "not lone" when the list has been processed, also when the same hash occurs earlier or later in the list as a removal (a removed and re-created node). NOT covered: that the mark survives the processing of the other roots of the version, and everything about what the lists contain
